@@ -15,18 +15,25 @@ SUB_RESTART.update({
     "(*" + P + "PID).registerMetrics": P + "vC01_registerMetrics",
     "(*" + P + "PID).ID": P + "vC01_id",
 })
+G = lambda n: "(*" + P + "grainPID)." + n
+SUB_GRAIN = {G("handleGrainContext"): P + "vC31_onReceive", G("deactivate"): P + "vC31_deactivateFn", G("teardownInFlightRequests"): P + "vC31_teardown",
+             G("recovery"): P + "vC31_recovery", "(*" + P + "GrainContext).NoErr": P + "vC31_noErr", "(*" + P + "GrainContext).Err": P + "vC31_errFn",
+             "(*" + P + "dispatcher).schedule": P + "vC31_schedule", "(*" + P + "worker).reschedule": P + "vC31_reschedule"}
 CHECK = {
     "id": "C01",
     "packages": ["./actor"],
-    "harness": ["actor/zz_verif_c01.go"],
+    "harness": ["actor/zz_verif_c01.go", "actor/zz_verif_c31.go"],
     "replace": [{"file": "actor/pools.go", "old": "const contextPoolSize = 8192", "new": "const contextPoolSize = 2"}],
     "entries": [
         {"fn": P + "vC01_basic", "replay": "model-only"},
         {"fn": P + "vC01_restart", "replay": "model-only", "opts": {"substitute": SUB_RESTART, "go_ignore": True, "stub": ["(*" + P + "PID).Shutdown"]}},
         {"fn": P + "vC01_restartSuspended", "replay": "model-only", "opts": {"substitute": SUB_RESTART, "go_ignore": True, "stub": ["(*" + P + "PID).Shutdown"]}},
+        # the grain turn loop (grain_pid.go receive/runTurn/finishOrReclaim): the C31 scenario, which asserts that no two OnReceive overlap
+        {"fn": P + "vC31_turns", "replay": "model-only", "cover_optional": ("pending",), "opts": {"substitute": SUB_GRAIN, "feasibility": False}},
     ],
     "opts": {"rounds": 3, "unwind": 4, "unwind_mode": "assume", "substitute": SUB},
-    "stop": list(SUB_RESTART.keys()),
-    "explanation": "PID.doReceive, runTurn, finishOrReclaim, dispatchState.*, real UnboundedMailbox under solver-chosen interleavings; dispatchOne is substituted by a ghost handler that asserts mutual exclusion; the dispatcher's ready queue is an abstract token channel (C05 covers the real one).",
+    "stop": list(SUB_RESTART.keys()) + list(SUB_GRAIN.keys()),
+    "timeout_ms": {"quick": 600000, "thorough": 1800000},
+    "explanation": "PID.doReceive, runTurn, finishOrReclaim, dispatchState.*, real UnboundedMailbox under solver-chosen interleavings; dispatchOne is substituted by a ghost handler that asserts mutual exclusion; the dispatcher's ready queue is an abstract token channel (C05 covers the real one). vC01_restart/vC01_restartSuspended run the real restartSubtree (environment substituted) against senders and workers; vC31_turns runs the grain turn loop (grainPID.receive/runTurn/finishOrReclaim, real grainMailbox) with a ghost OnReceive that asserts mutual exclusion.",
     "bounds": {"threads": "2 senders x 1 message, 2 workers x 1 turn", "rounds": 3, "throughput": 2, "context pool": 2},
 }
